@@ -312,6 +312,7 @@ struct SshShared {
     inbound: Vec<u8>,
     subsystem: bool,
     passwords_seen: Vec<String>,
+    received_total: usize,
 }
 
 struct SshHandler {
@@ -321,6 +322,8 @@ struct SshHandler {
     kbdint_only: bool,
     /// instead of answering the subsystem request: close the channel (Eof/Clean) or drop the connection (Abort)
     setup_fault: Option<CloseKind>,
+    /// hang up the channel (EOF + CLOSE) as soon as more than this many bytes were received
+    hang_up_after: Option<usize>,
 }
 
 #[async_trait::async_trait]
@@ -371,8 +374,18 @@ impl russh::server::Handler for SshHandler {
         Ok((self, session))
     }
 
-    async fn data(self, _channel: ChannelId, data: &[u8], session: SshSession) -> Result<(Self, SshSession), Self::Error> {
-        self.shared.lock().unwrap().inbound.extend_from_slice(data);
+    async fn data(mut self, channel: ChannelId, data: &[u8], mut session: SshSession) -> Result<(Self, SshSession), Self::Error> {
+        let received = {
+            let mut s = self.shared.lock().unwrap();
+            s.inbound.extend_from_slice(data);
+            s.received_total += data.len();
+            s.received_total
+        };
+        if self.hang_up_after.is_some_and(|n| received > n) {
+            self.hang_up_after = None;
+            session.eof(channel);
+            session.close(channel);
+        }
         Ok((self, session))
     }
 }
@@ -382,6 +395,8 @@ pub struct SshServer {
     rt: tokio::runtime::Runtime,
     listener: Arc<tokio::net::TcpListener>,
     config: Arc<russh::server::Config>,
+    /// the same server with a 2 KiB channel window (requests larger than that wait for window adjustments)
+    config_small_window: Arc<russh::server::Config>,
 }
 
 impl SshServer {
@@ -393,7 +408,12 @@ impl SshServer {
         config.auth_rejection_time = Duration::from_millis(10);
         config.auth_rejection_time_initial = Some(Duration::from_millis(0));
         config.keys.push(russh_keys::key::KeyPair::generate_ed25519().expect("host key"));
-        Self { port, rt, listener: Arc::new(listener), config: Arc::new(config) }
+        let mut small = russh::server::Config::default();
+        small.auth_rejection_time = Duration::from_millis(10);
+        small.auth_rejection_time_initial = Some(Duration::from_millis(0));
+        small.window_size = 2048;
+        small.keys.push(russh_keys::key::KeyPair::generate_ed25519().expect("host key"));
+        Self { port, rt, listener: Arc::new(listener), config: Arc::new(config), config_small_window: Arc::new(small) }
     }
 
     /// accept one connection, run the SSH session in the background, wait for the netconf subsystem
@@ -412,15 +432,20 @@ impl SshServer {
     }
 
     pub fn accept_opts(&self, timeout: Duration, accept_password: Option<String>, kbdint_only: bool, setup_fault: Option<CloseKind>) -> Option<SshPeer> {
+        self.accept_full(timeout, accept_password, kbdint_only, setup_fault, None)
+    }
+
+    /// `hang_up_after`: 2 KiB channel window, and the channel is hung up (EOF + CLOSE) once that many bytes arrived
+    pub fn accept_full(&self, timeout: Duration, accept_password: Option<String>, kbdint_only: bool, setup_fault: Option<CloseKind>, hang_up_after: Option<usize>) -> Option<SshPeer> {
         let shared: Arc<Mutex<SshShared>> = Arc::default();
-        let (listener, config, shared2) = (self.listener.clone(), self.config.clone(), shared.clone());
+        let (listener, config, shared2) = (self.listener.clone(), if hang_up_after.is_some() { self.config_small_window.clone() } else { self.config.clone() }, shared.clone());
         let sock = self.rt.block_on(async move { tokio::time::timeout(timeout, listener.accept()).await.ok()?.ok() })?;
         let raw = sock.0.into_std().ok()?;
         let keep = raw.try_clone().ok()?;
         let sock = self.rt.block_on(async { tokio::net::TcpStream::from_std(raw).ok() })?;
         _ = sock.set_nodelay(true);
         let task = self.rt.spawn(async move {
-            if let Ok(running) = russh::server::run_stream(config, sock, SshHandler { shared: shared2, accept_password, kbdint_only, setup_fault }).await {
+            if let Ok(running) = russh::server::run_stream(config, sock, SshHandler { shared: shared2, accept_password, kbdint_only, setup_fault, hang_up_after }).await {
                 _ = running.await;
             }
         });
